@@ -29,7 +29,7 @@ fn lens(quick: bool) -> Vec<usize> {
     if quick {
         LENS.to_vec()
     } else {
-        (0..=272).chain([511, 512, 513, 1023, 1024, 1025, 4095, 4096, 4097, 65535, 65536]).collect()
+        (0..=272).chain([511, 512, 513, 1023, 1024, 1025, 4095, 4096, 4097, 32767, 32768, 32769, 65535, 65536]).collect()
     }
 }
 
@@ -117,11 +117,13 @@ fn pair(a: Which, b: Which, suite: u16, ctx: &mut Ctx) {
         }
         same(ctx, "kdf_extract", &case, &e(ca.kdf_extract(&d, &pat(nh, 1)).map(|z| z.to_vec())), &e(cb.kdf_extract(&d, &pat(nh, 1)).map(|z| z.to_vec())));
         same(ctx, "kdf_extract(ikm)", &case, &e(ca.kdf_extract(&pat(nh, 1), &d).map(|z| z.to_vec())), &e(cb.kdf_extract(&pat(nh, 1), &d).map(|z| z.to_vec())));
+        // one class for all info strings beyond OpenSSL's documented HKDF info limit
+        let icase = if n > 32768 { format!("{tag}, info longer than 32768 bytes") } else { case.clone() };
         for &pl in &[0usize, 1, nh - 1, nh + 1] {
-            same(ctx, "kdf_expand(prk-length)", &format!("{case}, prk length {pl} (Nh={nh})"), &e(ca.kdf_expand(&pat(pl, 2), &d, nh).map(|z| z.to_vec())), &e(cb.kdf_expand(&pat(pl, 2), &d, nh).map(|z| z.to_vec())));
+            same(ctx, "kdf_expand(prk-length)", &(if n > 32768 { icase.clone() } else { format!("{icase}, prk length {pl} (Nh={nh})") }), &e(ca.kdf_expand(&pat(pl, 2), &d, nh).map(|z| z.to_vec())), &e(cb.kdf_expand(&pat(pl, 2), &d, nh).map(|z| z.to_vec())));
         }
         for &ol in &[0usize, 1, nh, nh + 1, 255 * nh, 255 * nh + 1] {
-            same(ctx, "kdf_expand", &format!("{case}, output length {ol}"), &e(ca.kdf_expand(&pat(nh, 2), &d, ol).map(|z| z.to_vec())), &e(cb.kdf_expand(&pat(nh, 2), &d, ol).map(|z| z.to_vec())));
+            same(ctx, "kdf_expand", &(if n > 32768 { icase.clone() } else { format!("{icase}, output length {ol}") }), &e(ca.kdf_expand(&pat(nh, 2), &d, ol).map(|z| z.to_vec())), &e(cb.kdf_expand(&pat(nh, 2), &d, ol).map(|z| z.to_vec())));
         }
         for aad in [None, Some(&b"aad"[..]), Some(&[][..])] {
             let (key, nonce) = (pat(nk, 5), pat(nn, 6));
